@@ -125,6 +125,10 @@ func ReadEnvironment(data json.RawMessage) (Environment, error) {
 	env := NewBuilder().Build().(*environment)
 	envelope := env.toEnvelope()
 
+	// the default number format is shared, so give the decoder its own copy to write into
+	numberFormat := *envelope.NumberFormat
+	envelope.NumberFormat = &numberFormat
+
 	if err := utils.UnmarshalAndValidate(data, envelope); err != nil {
 		return nil, err
 	}
